@@ -1,5 +1,6 @@
 """Module graphs of HmsLink rendered as real modules, and the comparison of what the real tools say."""
 import json
+import re
 
 from . import common as C
 
@@ -29,9 +30,40 @@ def imports(g, m):
     return imp
 
 
-def render(g, order=0):
-    """-> ({module: text}, {(module, item, from): line number of the import statement});
-    order: 0 = as listed, 1 = reversed, n >= 2 = rotated by n - 1 (the order in which the analyzer visits the modules)"""
+FILE = {0: {"main": "main", "b": "b", "c": "c"}, 1: {"main": "main", "b": "lib", "c": "lib_x"}}
+_STR = re.compile(r'("(?:[^"\\]|\\.)*")')
+
+
+def fname(m, naming):
+    return FILE[naming].get(m, m)
+
+
+def _rename(text, table):
+    parts = _STR.split(text)
+    for i in range(0, len(parts), 2):
+        parts[i] = re.sub(r"\b[A-Za-z_][A-Za-z_0-9]*\b", lambda mo: table.get(mo.group(0), mo.group(0)), parts[i])
+    return "".join(parts)
+
+
+def render(g, order=0, naming=0):
+    """-> ({file: text}, {(module, item, from): line number of the import statement});
+    order: 0 = as listed, 1 = reversed, n >= 2 = rotated by n - 1 (the order in which the analyzer visits the modules);
+    naming: which identifiers stand for the specification's module and item names - 0: b, c, h, hist; 1: modules lib and
+    lib_x, whose private h / hist are called x_h / x_hist in lib and h / hist in lib_x (names are arbitrary identifiers:
+    what a tool glues together from them must still tell the modules apart)"""
+    mods, lines = _render(g, order)
+    if naming == 0:
+        return mods, lines
+    out = {}
+    for m, text in mods.items():
+        table = {"b": "lib", "c": "lib_x"}
+        if m == "b":
+            table.update({"h": "x_h", "hist": "x_hist"})
+        out[fname(m, naming)] = _rename(text, table)
+    return out, lines
+
+
+def _render(g, order=0):
     mods, lines = {}, {}
     for m in ("main", "b", "c"):
         if m == "c" and not g["hasc"]:
